@@ -67,19 +67,6 @@ theorem C20_location_rule (a : Agent) :
   unfold Agent.location
   exact ⟨fun p hp => by rw [hp], fun hp => by rw [hp]⟩
 
-/-- the loop body of `collect_agent_data` before fix V3: the pops reach the dict object in the heap -/
-def collectInPlace (df : Defaults) (p : Portrayal) : Heap → List Agent → Option (List Entry × Heap)
-  | heap, [] => some ([], heap)
-  | heap, a :: as =>
-    match a.location with
-    | none => none
-    | some l =>
-      let d := portrayed heap p a.id
-      let heap' := match p a.id with
-        | some r => heap.set r (d.filter fun kv => !supportedKeys.contains kv.1)
-        | none => heap
-      (collectInPlace df p heap' as).map fun r => (collectOne df l d :: r.1, r.2)
-
 /-- Witness V3: with the pops done in place, a portrayal handing the same dict `{"color": "red"}` to two
     agents gives the second agent the default colour and leaves the dict empty; the repaired code records
     red for both. -/
@@ -90,6 +77,14 @@ theorem C20_V3_inplace_pop_refuted :
     ((collectInPlace libDefaults p heap agents).map fun r => (r.1.map (·.c), r.2)) = some (["red", "tab:blue"], [[]]) ∧
     (collectAgentData libDefaults heap p agents).map (·.map (·.c)) = some ["red", "red"] := by
   decide
+
+/-- The boundary of V3: as long as no two agents are handed the same dict object (`refsOf`: the references
+    the portrayal returns; a freshly built dict is no reference), popping in place recorded the same
+    entries as the repaired code — the defect needed a shared dict. -/
+theorem C20_inplace_agrees_on_unshared_dicts (df : Defaults) (p : Portrayal) (heap : Heap) (agents : List Agent)
+    (h : (refsOf p agents).Nodup) :
+    (collectInPlace df p heap agents).map (·.1) = collectAgentData df heap p agents :=
+  collectInPlace_fst df p agents heap h
 
 /-! ## _scatter -/
 
